@@ -15,7 +15,7 @@
    Modelled and total by construction or by theorem: dispatch loops, rule-set and @media splits,
    CSSUnknownRule (Skeleton.unknown_rule), CSSCharsetRule (ParseTotal.charset_rule), comments.
    Definitions only; proofs in ParseSkelFacts.v.                                              *)
-From CssV Require Import Base Regex Tokenizer Quote Gen.Quote Upto Skeleton ParseTotal.
+From CssV Require Import Base Regex Tokenizer Quote Gen.StrTokenValue Upto Skeleton ParseTotal.
 Local Open Scope nat_scope.
 
 Inductive leafkind :=
